@@ -70,6 +70,15 @@ def run(tier, wd):
             c["argv"], c["spec"], c["extraflag"] = argv, "[-x | -o]...", True
             cases.append(c)
             abstracts.append(a)
+    # a multi-valued type whose dynamic type is a map used by value (such a value cannot be a map key or be compared)
+    caps = {"bool": False, "multi": True, "isdefault": False, "maptype": True, "failon": list(V.INVALID["custom"])}
+    for role in ("opt", "arg"):
+        for envpat in V.env_patterns(1):
+            for clipat in V.cli_patterns(2, True):
+                n += 1
+                c, a = V.concrete("custom", role, False, None, envpat, clipat, rnd, custom=caps, tag="_%d" % (n % 7))
+                cases.append(c)
+                abstracts.append(a)
     # an empty string as a separate option value; a literal -- among the arguments after options were ended
     for m, d in itertools.product([False, True], repeat=2):
         caps = {"bool": False, "multi": m, "isdefault": d, "failon": list(V.INVALID["custom"])}
